@@ -22,27 +22,27 @@ SHIFT_FUT = ('next', 's_next')
 PAST_UN = ('once', 'historically')
 FUT_UN = ('eventually', 'always')
 FORM_UN = BOOL_UN + EVENT + SHIFT_PAST + SHIFT_FUT + PAST_UN + FUT_UN
-FORM_BIN = BOOL_BIN + ('since', 'until')
+FORM_BIN = BOOL_BIN + ('since', 'until', 'unless')
 TUN = ('once_b', 'historically_b', 'eventually_b', 'always_b')
-TBIN = ('since_b', 'until_b')
+TBIN = ('since_b', 'until_b', 'unless_b')
 UNARY = TERM_UN + FORM_UN
 BINARY = TERM_BIN + FORM_BIN
 
-FUTURE_OPS = SHIFT_FUT + FUT_UN + ('until', 'eventually_b', 'always_b', 'until_b')
-UNBOUNDED_FUTURE = FUT_UN + ('until',)
-BOUNDED_FUTURE = ('eventually_b', 'always_b', 'until_b') + SHIFT_FUT
+FUTURE_OPS = SHIFT_FUT + FUT_UN + ('until', 'unless', 'eventually_b', 'always_b', 'until_b', 'unless_b')
+UNBOUNDED_FUTURE = FUT_UN + ('until', 'unless')
+BOUNDED_FUTURE = ('eventually_b', 'always_b', 'until_b', 'unless_b') + SHIFT_FUT
 MEMORY_PAST = EVENT + SHIFT_PAST + PAST_UN + ('since', 'once_b', 'historically_b', 'since_b')
 DISCRETE_ONLY = EVENT + SHIFT_PAST + SHIFT_FUT
-TEMPORAL = EVENT + SHIFT_PAST + SHIFT_FUT + PAST_UN + FUT_UN + ('since', 'until') + TUN + TBIN
+TEMPORAL = EVENT + SHIFT_PAST + SHIFT_FUT + PAST_UN + FUT_UN + ('since', 'until', 'unless') + TUN + TBIN
 
 ALL_OPS = set(TERM_UN + TERM_BIN + BOOL_UN + BOOL_BIN + EVENT + SHIFT_PAST + SHIFT_FUT + PAST_UN + FUT_UN
-              + ('since', 'until') + TUN + TBIN + ('pred',))
+              + ('since', 'until', 'unless') + TUN + TBIN + ('pred',))
 
 KEYWORD = {
     'not': 'not', 'and': 'and', 'or': 'or', 'implies': 'implies', 'iff': 'iff', 'xor': 'xor',
     'rise': 'rise', 'fall': 'fall', 'prev': 'prev', 's_prev': 's_prev', 'next': 'next', 's_next': 's_next',
     'once': 'once', 'historically': 'historically', 'eventually': 'eventually', 'always': 'always',
-    'since': 'since', 'until': 'until',
+    'since': 'since', 'until': 'until', 'unless': 'unless', 'unless_b': 'unless',
     'once_b': 'once', 'historically_b': 'historically', 'eventually_b': 'eventually', 'always_b': 'always',
     'since_b': 'since', 'until_b': 'until',
 }
@@ -51,7 +51,7 @@ ALIASES = {
     'iff': ['iff', '<->'], 'xor': ['xor'],
     'prev': ['prev', 'Y'], 's_prev': ['s_prev', 'sY'], 'next': ['next', 'X'], 's_next': ['s_next', 'sX'],
     'once': ['once', 'O'], 'historically': ['historically', 'H'], 'eventually': ['eventually', 'F'],
-    'always': ['always', 'G'], 'since': ['since', 'S'], 'until': ['until', 'U'],
+    'always': ['always', 'G'], 'since': ['since', 'S'], 'until': ['until', 'U'], 'unless': ['unless', 'W'],
     'rise': ['rise'], 'fall': ['fall'],
 }
 
@@ -161,7 +161,7 @@ def horizon(n, defs=None):
     if k in UNBOUNDED_FUTURE:
         return float('inf')
     hc = max(horizon(c, defs) for c in children(n))
-    if k in ('eventually_b', 'always_b', 'until_b'):
+    if k in ('eventually_b', 'always_b', 'until_b', 'unless_b'):
         return hc + n[2]
     if k in SHIFT_FUT:
         return hc + 1
@@ -412,7 +412,7 @@ class Gen(object):
             for name, grp, w in (('bun', BOOL_UN, 2), ('bbin', BOOL_BIN, 4), ('ev', EVENT, 1),
                                  ('shp', SHIFT_PAST, 1.5), ('shf', SHIFT_FUT, 1.5), ('pun', PAST_UN, 2),
                                  ('fun', FUT_UN, 2), ('tun', TUN, 5), ('tbin', TBIN, 2.5),
-                                 ('su', ('since', 'until'), 2)):
+                                 ('su', ('since', 'until', 'unless'), 2)):
                 al = self._allowed(grp)
                 if al:
                     groups.append((name, al, w))
@@ -555,3 +555,12 @@ def order_defs(defs):
 
 def inline(defs, top):
     return subst_refs(top, dict((n, a) for n, a in defs))
+
+
+def desugar(n):
+    """unless is sugar:  p unless[a,b] q = always[0,b] p or p until[a,b] q ;  p unless q = always p or p until q"""
+    if n[0] == 'unless':
+        return ['or', ['always', n[1]], ['until', n[1], n[2]]]
+    if n[0] == 'unless_b':
+        return ['or', ['always_b', 0, n[2], n[3]], ['until_b', n[1], n[2], n[3], n[4]]]
+    return n
